@@ -1,6 +1,7 @@
 import HpackVerif.Props.Common
 import HpackVerif.Proofs.Sound3
 import HpackVerif.Proofs.IntExtra
+import HpackVerif.Proofs.Complete2
 import HpackVerif.Proofs.DataEq
 /-! # C02 — the Decoder returns the RFC 7541 meaning of every well-formed header block
 
@@ -14,6 +15,26 @@ open Impl RFC
 
 /-- the tables the semantics is evaluated on are Appendix A and Appendix B -/
 theorem tables_are_rfc : Gen.staticTable = RFCT.staticTable ∧ Gen.codes = RFCT.codes := ⟨static_eq_rfc, codes_eq_rfc⟩
+
+/-- the L0 grammar writes a Huffman-coded string as `huffEncode codes s`; that is not an appeal to the
+    implementation: it is **the unique octet string** whose bits are the Appendix B codes of `s` followed by fewer
+    than eight one-bits (the §5.2 definition). Any peer's Huffman coding of `s` is this string. -/
+theorem huffman_payload_unique (s w : Bytes) :
+    HuffWire RFCT.codes (bytesBits w) (s.map (·.toNat)) ↔ w = huffEncode Gen.codes s := by
+  rw [← codes_eq_rfc]
+  constructor
+  · intro hw
+    have hd := (gen_impl_huffDecode_iff w (s.map (·.toNat))).mpr hw
+    have := (huffDecode_reencode w _ hd).1
+    rw [map_ofNat_toNat] at this
+    exact this
+  · intro hw
+    subst hw
+    obtain ⟨h1, h2⟩ := gen_huffEncode_bits s
+    refine ⟨?_, _, h2, h1⟩
+    intro x hx
+    obtain ⟨b, _, rfl⟩ := List.mem_map.mp hx
+    exact b.toNat_lt
 
 /-- `RepOK` is met by what a reasonable peer sends: integers below 2^64 with up to three redundant
     zero continuation octets … -/
